@@ -337,7 +337,7 @@ UdpTransportDescriptorParser = TransportDescriptorParser(
     "udp",
     [("host", (str, True)),
      ('port', (int, True))],
-    {'connect_timeout': (float, False)}
+    {}
 )
 
 UsbTmcTransportDescriptorParser = TransportDescriptorParser(
